@@ -10,7 +10,7 @@ use vcore::{prop_search, Outcome, Run, Search};
 use wire::*;
 use wtransport::Connection;
 
-const RULE: &str = "case = runtime flavour x role x termination cause in {peer QUIC application close(code, reason), peer close capsule, peer clean FIN of the session stream, local Connection::close, protocol error provoked by the raw peer (DATA on the control stream), STOP_SENDING(code) on the endpoint's own control stream, idle timeout (relay black hole), all handles dropped} x set of pending operations in separate tasks on 1..4 cloned handles drawn from {accept_uni, accept_bi, receive_datagram, closed, read, write (flow-control blocked), stopped, an opening future} x delay between issuing the calls and raising the cause x with/without stalled peer streams (stalled inside the preamble, after a complete GREASE frame, after GREASE + one byte, after the type varint of a uni stream, on a GREASE-type uni stream, after the complete preamble) x backlog of 0..7 datagrams and 0..11 streams of the session the application never picks up (hand-off queues full when the cause fires). Oracle: every pending call and three later calls of each kind complete within the bound with an error from the admissible set of the cause (exact peer code/reason, local protocol error, timeout, or a local close), never success, a hang, a panic or another cause; with all handles dropped the peer sees the connection closed and the endpoint has no open connection. Hook part: generated op sequences over shared_result / bichannel against a set-once / FIFO model. Non-trivial: >= 2 pending operations of different kinds when the cause fires; distinct = distinct case";
+const RULE: &str = "case = runtime flavour x role x termination cause in {peer QUIC application close(code, reason), peer close capsule (in one piece, or in two deliveries with a datagram and a stream in between), peer clean FIN of the session stream, local Connection::close, protocol error provoked by the raw peer (DATA on the control stream), STOP_SENDING(code) on the endpoint's own control stream, idle timeout (relay black hole), all handles dropped} x set of pending operations in separate tasks on 1..4 cloned handles drawn from {accept_uni, accept_bi, receive_datagram, closed, read, write (flow-control blocked), stopped, an opening future} x delay between issuing the calls and raising the cause x with/without stalled peer streams (stalled inside the preamble, after a complete GREASE frame, after GREASE + one byte, after the type varint of a uni stream, on a GREASE-type uni stream, after the complete preamble) x backlog of 0..7 datagrams and 0..11 streams of the session the application never picks up (hand-off queues full when the cause fires). Oracle: every pending call and three later calls of each kind complete within the bound with an error from the admissible set of the cause (exact peer code/reason, local protocol error, timeout, or a local close), never success, a hang, a panic or another cause; with all handles dropped the peer sees the connection closed and the endpoint has no open connection. Hook part: generated op sequences over shared_result / bichannel against a set-once / FIFO model. Non-trivial: >= 2 pending operations of different kinds when the cause fires; distinct = distinct case";
 
 #[derive(Clone, Debug, Serialize, Deserialize, PartialEq)]
 pub enum Cause {
@@ -352,7 +352,26 @@ async fn exec_async(case: Arc<Case>) -> CaseResult {
         Cause::PeerQuicClose(c, r) => raw_conn.close(vi(*c), r),
         Cause::PeerCapsule(c, r) => {
             let cap = refcodec::enc_frame(refcodec::registry::FRAME_DATA, &refcodec::enc_close_capsule(*c, r.as_bytes()));
-            let _ = req_send.write_all(&cap).await;
+            if *c % 3 != 0 && cap.len() >= 2 {
+                // the capsule travels in two deliveries with other connection events in between
+                // (the worker's select loop runs while the frame is half received): the cause and
+                // its attribution must not depend on that
+                let cut = 1 + (*c as usize / 3) % (cap.len() - 1);
+                let _ = req_send.write_all(&cap[..cut]).await;
+                tokio::time::sleep(Duration::from_millis(30)).await;
+                let _ = raw_conn.send_datagram(refcodec::enc_datagram(session, b"between").into());
+                if let Ok(mut s) = raw_conn.open_uni().await {
+                    let mut b = refcodec::enc_uni_header_wt(session);
+                    b.extend_from_slice(b"between");
+                    let _ = s.write_all(&b).await;
+                    let _ = s.finish();
+                    raw_held.push(Box::new(s));
+                }
+                tokio::time::sleep(Duration::from_millis(30)).await;
+                let _ = req_send.write_all(&cap[cut..]).await;
+            } else {
+                let _ = req_send.write_all(&cap).await;
+            }
             let _ = req_send.finish();
         }
         Cause::PeerFin => {
